@@ -764,6 +764,78 @@ def r11_wrappers_forward_arguments(ctx, rule='C13.R1'):
     ctx.floor(rule, 'forwarding calls in decorator wrappers', n, 2)
 
 
+def r12_small_invariants(ctx):
+    """Three single-expression invariants of the adapters' plumbing that the interface rules above rest on:
+    (a) the error hooks read the response body before the error travels on (delete's idempotence tests parse it; over a
+        streaming transport an unread body raises ResponseNotRead instead);
+    (b) the package's chunk iterator ends on an EMPTY read only - a short read is not the end of a stream;
+    (c) Local.list_files translates the platform separator (os.sep) and nothing else in the names it reports."""
+    corpus = ctx.corpus
+    # (a)
+    n = 0
+    for short in ('b2', 's3c'):
+        m = corpus.module(short)
+        for f in m.all_functions:
+            for h in [h for t in walk_local(f.node) if isinstance(t, ast.Try) for h in t.handlers]:
+                reads = [c for st in h.body for c in ast.walk(st) if isinstance(c, ast.Call) and isinstance(c.func, ast.Attribute) and c.func.attr in ('aread', 'read') and isinstance(c.func.value, ast.Attribute) and c.func.value.attr == 'response']
+                if not reads:
+                    continue
+                n += 1
+                ctx.analysed(f)
+                cfg = cfg_of(f.node)
+                rnodes = [x for c in reads for x in cfg.nodes_of(enclosing_stmt(c), ('stmt', 'ok'))]
+                entry = cfg.nodes_of(h, 'handler')
+                skip = None
+                for e in entry:
+                    skip = skip or cfg.path(e, [cfg.raise_exit, cfg.exit], avoid=rnodes)
+                ctx.check(
+                    skip is None,
+                    'C13.R4',
+                    f'{func_label(f)}|error-body-read-before-the-error-travels-on',
+                    loc(f, reads[0]),
+                    f'{short}.{f.name}: the body of an error response is read on every path before the error is raised on',
+                    f'{short}.{f.name}: the error can leave the hook without the response body having been read (e.g. only when debug logging is on): code that inspects the error body later '
+                    '(delete tolerating "already hidden" / "no such file") fails with ResponseNotRead on a streaming transport - deleting twice is no longer a no-op',
+                )
+    ctx.floor('C13.R4', 'error hooks reading the response body', n)
+    # (b)
+    ic = corpus.module('utils').functions.get('iter_chunks')
+    if ic is None:
+        raise AnalysisError('C13.R6: utils.iter_chunks missing')
+    ctx.analysed(ic)
+    good = any(isinstance(r, ast.Return) and isinstance(r.value, ast.Call) and dotted(r.value.func) == 'iter' and len(r.value.args) == 2 and isinstance(r.value.args[1], ast.Constant) and r.value.args[1].value == b'' for r in walk_local(ic.node))
+    if not good:
+        exits = [x for x in walk_local(ic.node) if isinstance(x, (ast.Break, ast.Return))]
+        loops = [l for l in walk_local(ic.node) if isinstance(l, (ast.While, ast.For))]
+        def _empty_read_test(t):
+            while isinstance(t, ast.UnaryOp) and isinstance(t.op, ast.Not):
+                t = t.operand
+            return isinstance(t, ast.Name) or (isinstance(t, ast.Compare) and len(t.ops) == 1 and isinstance(t.comparators[0], ast.Constant) and t.comparators[0].value in (b'', 0) and isinstance(t.ops[0], (ast.Eq, ast.NotEq)) and not any(isinstance(x, ast.Call) and dotted(x.func) == 'len' and False for x in ast.walk(t)))
+        good = bool(loops) and all(isinstance(getattr(x, '_parent', None), ast.If) and _empty_read_test(x._parent.test) for x in exits) and not any(isinstance(c, ast.Compare) and any(isinstance(y, ast.Call) and dotted(y.func) == 'len' for y in ast.walk(c)) and any(isinstance(o, (ast.Lt, ast.LtE, ast.Gt, ast.GtE)) for o in c.ops) for c in ast.walk(ic.node))
+    ctx.check(
+        good,
+        'C13.R6',
+        f'{func_label(ic)}|chunk-iterator-ends-on-empty-read-only',
+        loc(ic, ic.node),
+        'utils.iter_chunks yields until read() returns an empty result',
+        'utils.iter_chunks can stop on something else than an empty read (e.g. a read shorter than chunk_size): streams that deliver short reads before their end (pipes, sockets, rate-limited or wrapped files) are uploaded truncated by the adapters that stream through it',
+    )
+    # (c)
+    lf = corpus.cls('local', 'Local').methods.get('list_files')
+    if lf is not None:
+        reps = [c for f in [lf] + list(lf.all_nested()) for c in calls_in(f.node) if isinstance(c.func, ast.Attribute) and c.func.attr == 'replace' and len(c.args) == 2 and isinstance(c.args[1], ast.Constant) and c.args[1].value == '/']
+        for c in reps:
+            ok = dotted(c.args[0]) == 'os.sep' or (isinstance(c.args[0], ast.Constant) and c.args[0].value == '/')
+            ctx.check(
+                ok,
+                'C13.R3',
+                f'{func_label(lf)}|only-the-platform-separator-is-translated',
+                loc(lf, c),
+                'Local.list_files: names are reported with os.sep translated to "/" and nothing else changed',
+                f'Local.list_files: `{src(c, 50)}` rewrites characters that are part of object names on this platform: the listing reports names that do not exist and omits the ones that do',
+            )
+
+
 def r9_b2_bucket_record(ctx):
     """B2 addresses objects by bucket *name* in download URLs and by bucket *id* in the JSON API.  The cached bucket
     record must therefore carry the API's own bucketId / bucketName - never the connection-string identifier, which
@@ -808,6 +880,7 @@ def run(ctx):
     r2_rewind(Relabel(ctx, 'C13.R6'), rule='C13.R6')
     r8_no_shared_mutable_state(ctx)
     r9_b2_bucket_record(ctx)
+    r12_small_invariants(ctx)
     r10_download_stream_discipline(ctx)
     r11_wrappers_forward_arguments(ctx)
     r7_exists_answer(ctx)
